@@ -174,6 +174,8 @@ def kamstrup_cases():
             c[f"kamstrup frame {nm} (untagged APDU clock)"] = frame_case("han.kamstrup", lambda V, items=items: kamstrup_body(items, V), "untagged", "always")
     it3 = kamstrup_items(3, True)
     c["kamstrup body hourly 3-phase with null padding"] = body_case("han.kamstrup", lambda V: kamstrup_body(it3, V, padding=(0, 2, 5, len(it3))))
+    it1h = kamstrup_items(1, True)
+    c["kamstrup body hourly 1-phase with null padding after every element"] = body_case("han.kamstrup", lambda V: kamstrup_body(it1h, V, padding=tuple(range(0, len(it1h) + 1))))
     c["kamstrup body 10s 3-phase CT meter (type 685...)"] = body_case("han.kamstrup", lambda V: kamstrup_body(kamstrup_items(3, False), V, meter_type=b"685700000000000000"))
     c["kamstrup frame 10s 1-phase CT meter (tagged APDU clock)"] = frame_case("han.kamstrup", lambda V: kamstrup_body(kamstrup_items(1, False), V, meter_type=b"685123456789012345"), "tagged", "always")
     c["kamstrup body 10s 3-phase direct meter (type 684...)"] = body_case("han.kamstrup", lambda V: kamstrup_body(kamstrup_items(3, False), V, meter_type=b"684700000000000000"))
